@@ -58,11 +58,22 @@ Section Complete.
                         then [(c_name ci, g_short (grp_info (cmd_group sc)))] else [])
              (cmd_subs c).
 
-  (* completion's private parse state *)
-  Record cst := { cs_pos : list arg; cs_cmd : list nat; cs_lk : lookup }.
-  Definition cs_fill (path : list nat) : cst :=
+  (* completion's private parse state; [cs_ret]: an argument was left over (the parser's
+     retargs is non-empty), so commands are no longer recognised *)
+  Record cst := { cs_pos : list arg; cs_cmd : list nat; cs_lk : lookup; cs_ret : bool }.
+  Definition cs_fill (path : list nat) (ret : bool) : cst :=
     {| cs_pos := match cmd_at root path with Some c => cmd_args c | None => [] end;
-       cs_cmd := path; cs_lk := make_lookup delim root path |}.
+       cs_cmd := path; cs_lk := make_lookup delim root path; cs_ret := ret |}.
+  Definition cs_with_pos (s : cst) (pos : list arg) : cst :=
+    {| cs_pos := pos; cs_cmd := cs_cmd s; cs_lk := cs_lk s; cs_ret := cs_ret s |}.
+  Definition cs_leftover (s : cst) : cst :=
+    {| cs_pos := cs_pos s; cs_cmd := cs_cmd s; cs_lk := cs_lk s; cs_ret := true |}.
+  (* a plain argument: bound to the next positional if one is pending, else left over *)
+  Definition cs_plain (s : cst) : cst :=
+    match cs_pos s with
+    | p :: ps => cs_with_pos s (if is_slice (a_ty p) then cs_pos s else ps)
+    | [] => cs_leftover s
+    end.
 
   (* the short-cluster walk of the prefix loop: (option found last, canarg) *)
   Fixpoint comp_short_walk (lk : lookup) (total : nat) (rs : list (nat * N * nat)) (o : option octx) (canarg : bool)
@@ -79,30 +90,31 @@ Section Complete.
       end
     end.
 
-  (* the walk over all words but the last: returns the state and the option whose
-     value is being completed (if any) *)
-  Fixpoint comp_walk (fuel : nat) (args : list str) (s : cst) (opt : option octx) : cst * option octx * list str :=
+  (* the walk over all words but the last: returns the state, the option whose value is
+     being completed (if any), the remaining words and whether the parser has stopped
+     recognising options and commands (after the terminator, or after the first non-option
+     argument under PassAfterNonOption) *)
+  Fixpoint comp_walk (fuel : nat) (args : list str) (s : cst) (opt : option octx) : cst * option octx * list str * bool :=
     match fuel with
-    | O => (s, opt, args)
+    | O => (s, opt, args, false)
     | S f =>
       match args with
       | a :: ((_ :: _) as rest) =>
         if po_passdd po && str_eqb a (s2l "--") then
-          ({| cs_pos := skipn (length rest - 1) (cs_pos s); cs_cmd := cs_cmd s; cs_lk := cs_lk s |}, None, rest)
+          (cs_with_pos s (skipn (length rest - 1) (cs_pos s)), None, rest, true)
         else if argument_is_option a then
           let '(islong, optname, argument) := split_option a in
-          match argument with
-          | Some _ => comp_walk f rest s opt
+          let '(o, canarg) :=
+              if islong then (find_last (lk_long (cs_lk s)) optname, true)
+              else comp_short_walk (cs_lk s) (length optname) (range_str optname) None true in
+          match o with
           | None =>
-            let '(o, canarg) :=
-                if islong then (find_last (lk_long (cs_lk s)) optname, true)
-                else comp_short_walk (cs_lk s) (length optname) (range_str optname) None true in
-            match o with
+            if po_ignore po then comp_walk f rest (cs_plain s) None     (* passed through as a plain argument *)
+            else comp_walk f rest s opt
+          | Some oc =>
+            match argument with
+            | Some _ => comp_walk f rest s opt
             | None =>
-              if po_passafter po then
-                ({| cs_pos := skipn (length rest - 1) (cs_pos s); cs_cmd := cs_cmd s; cs_lk := cs_lk s |}, None, rest)
-              else comp_walk f rest s opt
-            | Some oc =>
               if can_argument (oc_opt oc) && negb (o_optional (oc_opt oc)) && canarg then
                 match rest with
                 | _ :: ((_ :: _) as rest') => comp_walk f rest' s opt      (* pop the option's argument *)
@@ -112,28 +124,32 @@ Section Complete.
             end
           end
         else
-          match cs_pos s with
-          | p :: ps =>
-            comp_walk f rest {| cs_pos := if is_slice (a_ty p) then cs_pos s else ps; cs_cmd := cs_cmd s; cs_lk := cs_lk s |} None
-          | [] =>
-            match find_last (lk_cmds (cs_lk s)) a with
-            | Some child => comp_walk f rest (cs_fill (cs_cmd s ++ [child])) None
-            | None => comp_walk f rest s None
+          match find_last (lk_cmds (cs_lk s)) a with
+          | None =>
+            if po_passafter po then
+              (cs_with_pos s (skipn (length rest) (cs_pos s)), None, rest, true)
+            else comp_walk f rest (cs_plain s) None
+          | Some child =>
+            match cs_pos s with
+            | _ :: _ => comp_walk f rest (cs_plain s) None
+            | [] =>
+              if negb (cs_ret s) then comp_walk f rest (cs_fill (cs_cmd s ++ [child]) (cs_ret s)) None
+              else comp_walk f rest (cs_leftover s) None
             end
           end
-      | _ => (s, opt, args)
+      | _ => (s, opt, args, false)
       end
     end.
 
   Definition complete (args : list str) : list (str * str) :=
     let args := match args with [] => [[]] | _ => args end in
-    let '(s, opt, rest) := comp_walk (S (length args)) args (cs_fill []) None in
+    let '(s, opt, rest, terminated) := comp_walk (S (length args)) args (cs_fill [] false) None in
     let lastarg := last rest [] in
     let ret :=
         match opt with
         | Some oc => complete_value (o_ty (oc_opt oc)) [] lastarg
         | None =>
-          if starts_option lastarg then
+          if negb terminated && starts_option lastarg then
             let '(prefix, islong, optname, argument) := strip_split lastarg in
             match argument, islong with
             | None, false =>
@@ -156,10 +172,12 @@ Section Complete.
             match cs_pos s with
             | p :: _ => complete_value (a_ty p) [] lastarg
             | [] =>
-              match cmd_at root (cs_cmd s) with
-              | Some c => complete_commands c lastarg
-              | None => []
-              end
+              if negb terminated && negb (cs_ret s) then
+                match cmd_at root (cs_cmd s) with
+                | Some c => complete_commands c lastarg
+                | None => []
+                end
+              else []
             end
         end in
     sort_by (fun it : str * str => fst it) ret.
